@@ -61,7 +61,11 @@ CLAIMED.update({
             "components or user total, less ITC, incentives, grants plus fees; component overrides used exactly; "
             "Cwell = per-well costs x wells (+laterals, 1.05); Coam = parts or user total + redrilling + fees - relief; "
             "chiller not double counted; per-well cost helper proved for all 17 correlations. Quick tier: 19 "
-            "representative end-use x plant configurations, thorough tier: all 51 runnable ones (a direct-use plant type with a non-heat end-use does not run on the real program).",
+            "representative end-use x plant configurations, thorough tier: all 51 runnable ones (a direct-use plant type with a non-heat end-use does not run on the real program). "
+            "SBTEconomics.Calculate (the economics class of Reservoir Model 8, a diverged copy of the method) is under the same "
+            "contract by inheritance, wellfield clause re-stated for its cost structure, 5 configurations (one defect found and "
+            "fixed: a user-supplied gathering cost was overwritten). The lateral-section cost helper (17 correlations x per-metre "
+            "cost provided or not) and the drilled-length helper (5 well configurations) are verified, no longer assumed.",
             TRUSTED + "Snapshots of the real classes after Model.read_parameters (T5); surface-plant and pump cost "
             "correlations are 'the components' and are not checked against anything.", "DESIGN.md section 4 C03"),
 })
@@ -76,7 +80,9 @@ CLAIMED["C04"] = ("proof", TECH,
             "project cash flow = energy sold x that year's price + add-on profit - add-on OPEX - O&M, both cumulative "
             "series are running sums, NPV/IRR(in %)/VIR/MOIC of exactly the reported series, add-on payback in a year "
             "where its cumulative turns positive. Three genuine defects found and fixed (payback scan wrap-around; add-on "
-            "energy sold twice; add-on IRR reported as a fraction under a % label - see known_findings.json).",
+            "energy sold twice; add-on IRR reported as a fraction under a % label - see known_findings.json). "
+            "SBTEconomics.Calculate (Reservoir Model 8) is under the same cash-flow clauses by inheritance of the contract: two "
+            "more genuine defects of that copy found and fixed (payback scan from index 0; the NPV convention flag not passed).",
             TRUSTED + "numpy-financial npv/irr are library axioms (A3); the S-DAC-GT sub-calculation and SBT / CLGS "
             "economics subclasses are not under contract.",
             "DESIGN.md section 4 C04")
@@ -113,7 +119,10 @@ CLAIMED.update({
             "0 <= producible <= available (under T_res > T_rej and stated facts on the uninterpreted water properties); "
             "exact scaling with area and with thickness is proved by self-composition on the real function (two symbolic "
             "runs related by the scale factor), extensive x k, per-volume / percentage unchanged, per-area unchanged "
-            "(area) or x k (thickness), for provided and derived depth/pressure/density/heat capacity.",
+            "(area) or x k (thickness), for provided and derived depth/pressure/density/heat capacity. The functional contract is "
+            "verified in every state the reader can leave an input in: value in PreferredUnits with CurrentUnits either as "
+            "declared or naming another unit of the kind (one parameter at a time, 15 configurations; pint quantity arithmetic "
+            "is modelled with the real registry's unit algebra).",
             TRUSTED + "Field identities are discharged by the ring normaliser (T3); water properties and UtilEff_func are "
             "uninterpreted (A3); the unit clause of the statement is C06's.", "DESIGN.md section 4 C17"),
 })
@@ -267,7 +276,12 @@ CLAIMED["C09"] = ("other", "structural obligations on the mechanically extracted
                   "per year and construction years (z3, 65 VCs).",
                   "NOT decided (and not claimed): that a printed figure equals the computed quantity rounded to the "
                   "displayed precision, that it carries the quantity's unit, and which quantity a column shows - these are "
-                  "statements about formatted text / a correspondence only the writer itself defines. Series lengths are "
+                  "statements about formatted text / a correspondence only the writer itself defines. The BINDING half of 'labelled with "
+                  "that quantity's unit' IS decided (ground obligations over all 143 unit-carrying writes of the real AST, aliases "
+                  "resolved): the unit text is the CurrentUnits (the attribute the conversion pass rewrites with the value) of a "
+                  "parameter whose value the same line prints; 58 lines of the pinned tree fail it (PreferredUnits printed - replayed "
+                  "natively with a `Units:` directive - or a unit borrowed from another parameter) and are recorded one by one as "
+                  "known findings. Series lengths are "
                   "proved postconditions of C02/C04/C05/C15/C16 where those exist and listed as assumptions otherwise. "
                   "Source shapes outside what the check recognises exit 2 (undecided), not 1.",
                   "DESIGN.md section 4 C09")
@@ -282,7 +296,9 @@ CLAIMED["C20"] = ("other", TECH + " on the mechanically extracted run-and-exit t
                   "path model, main() is entered with sys.argv[1] = the input argument and sys.argv[2] = the output "
                   "argument resolved against the STARTING working directory, or <starting directory>/HDR.out when no "
                   "output argument is given. The client's side of the statement (failures reported, no result after a "
-                  "failed run) is C08's.",
+                  "failed run) is C08's. File-system queries on paths (is_file / exists) are unknown Booleans, so an exit status "
+                  "that depends on what is on disk is checked for both answers (seed C20-3; the native replay runs the aborting "
+                  "input with and without a stale report at the output path).",
                   TRUSTED + "Dropped by the extraction: the imports and the argparse construction / parse (its positional "
                   "mapping of the command line is trusted); pathlib is a model (A3). NOT decided: that main() writes the "
                   "report and JSON to sys.argv[2] (Outputs / GEOPHIRESv3 path handling), relative output-file "
